@@ -37,6 +37,16 @@ META = {
         "prices handed to add_liquidity are the prices of ticks at most spacing/2-2 away from a usable tick (bounds on a "
         "grid of 4 for spacing 2), so that the +-1 of the floor in price->tick cannot change the usable tick; the tick= "
         "argument of add_liquidity_by_tick is never +-1 (-1 is the function's 'not given' sentinel)",
+        "when the two results of an add_liquidity_by_value differ by more than 1e-9 (but within their 0.1 %) the two states "
+        "have really diverged and the rest of that script is not compared: which token the remainder is in, how much "
+        "liquidity it buys in a narrow range and every position's fee share are consequences the statement does not bound; "
+        "below 1e-9 the script goes on under the sticky 0.1 %",
+        "under the sticky 0.1 % a liquidity figure is measured against the liquidity that the gross holdings seen so far would "
+        "be in that figure's own range (liquidity of ranges of different widths is not commensurable), pending_value "
+        "against pending quote + pending base * price",
+        "a recorded buy/sell/swap that moves less than the tolerance (1e-12, or 0.1 % under the sticky class) of the gross "
+        "holdings seen so far is rounding dust, not an outcome (even_rebalance of an already balanced wallet trades 1e-34 of "
+        "it in either direction); all other actions must be the same in both orientations",
         "a rejection must be mirrored by a rejection of the same exception type; messages are not compared",
         "after the first mismatching operation of a script the rest of that script is not compared (consequences of one cause)",
     ],
@@ -45,6 +55,7 @@ NSHARDS = 16
 DEC = (6, 8, 18)
 FEES = (0.01, 0.05, 0.3, 1)
 D0 = Decimal(0)
+DIVERGED = Fraction(1, 10**9)  # add_liquidity_by_value results further apart than this: the states have really diverged
 
 
 def plan(tier, seed):
@@ -294,7 +305,7 @@ class Runner:
             ka = MR.to_frame_a(k, self.mir)
             self.cur = (bar, keep[1], "get_position_status", f"{self.pvr(bar, ka)}")
             ps = m.get_position_status(k)
-            self.o("liquidity", "liq", "liq", ps.liquidity)
+            self.o("liquidity", "liq", "liq", ps.liquidity, meta={"range": ka, "tick": self.pair.price_tick[bar]})
             la_b, la_q = self.bq(ps.liquidity_amount0, ps.liquidity_amount1)
             pe_b, pe_q = self.bq(ps.pending_amount0, ps.pending_amount1)
             am_b, am_q = self.bq(ps.amount0, ps.amount1)
@@ -341,14 +352,21 @@ class Runner:
         n0 = len(self.actions)
         res = Dr.call_op(fn, *a, **kw)
         acts = self.actions[n0:]
-        names = []
+        names, mags = [], []
+        P = self.price()
         for x in acts:
             nm = type(x).__name__
+            mag = None  # value moved by a trade, in quote tokens (None: not a trade, always material)
             if nm == "SwapAction":
-                nm += ":from-" + ("base" if getattr(x.amount, "unit", "") == self.pair.B.name else "quote")
+                from_base = getattr(x.amount, "unit", "") == self.pair.B.name
+                nm += ":from-" + ("base" if from_base else "quote")
+                mag = abs(Decimal(x.amount)) * (P if from_base else 1)
+            elif nm in ("BuyAction", "SellAction"):
+                mag = abs(Decimal(x.base_change)) * P
             names.append(nm)
+            mags.append(mag)
         self.o("accepted", "ok", None, (res.ok, None if res.ok else type(res.exc).__name__), meta={"site": res.site, "exc": repr(res.exc)[:200]})
-        self.o("actions", "count", None, tuple(names))
+        self.o("actions", "count", None, tuple(names), meta={"mags": mags, "P": P})
         return res, tuple(names)
 
     def step(self, bar, si, st):
@@ -373,6 +391,7 @@ class Runner:
                     if abs(tk) == 1:
                         tk = MR.safe_tick(tk + 3, pair.bounds)
                     kw["tick"] = self.own_tick(tk)
+                    kw_tick_a = tk
                     cls = MR.price_vs_range(tk, *r_a) + "@tick-arg"
                     self.cur = (bar, si, name, cls)
                 a, b = (up, lo) if st["rev"] else (lo, up)
@@ -400,7 +419,7 @@ class Runner:
                 self.positions.append(pos) if pos not in self.positions else None
                 sc_q = summ.get("scale_q")
                 self.o("position", "count", None, MR.to_frame_a(pos, self.mir))
-                self.o("liquidity", "liq", "liq", liq)
+                self.o("liquidity", "liq", "liq", liq, meta={"range": MR.to_frame_a(pos, self.mir), "tick": kw_tick_a if op == "add_tick" and kw else pair.price_tick[bar]})
                 self.o("base_used", "amt", "base", used_b, scale=None if sc_q is None else sc_q / P)
                 self.o("quote_used", "amt", "quote", used_q, scale=sc_q)
                 summ["nz"] = liq != 0
@@ -420,7 +439,7 @@ class Runner:
                 liq = None
                 if st["fl"] is not None and live:
                     liq = int(Decimal(int(m.positions[pos].liquidity)) * Decimal(str(st["fl"])))
-                    self.o("liquidity_asked", "liq", "liq", liq)
+                    self.o("liquidity_asked", "liq", "liq", liq, meta={"range": ka, "tick": pair.price_tick[bar]})
                 elif st["fl"] is not None:
                     liq = 12345
                 res, acts = self.call(m.remove_liquidity, pos, liq, st["collect"], -1, st["dry"])
@@ -503,7 +522,7 @@ class Runner:
                 if res.ok:
                     liq, a0, a1 = res.ret
                     e_b, e_q = self.bq(a0, a1)
-                    self.o("liquidity", "est", "liq", liq)
+                    self.o("liquidity", "est", "liq", liq, meta={"range": r_a, "tick": pair.price_tick[bar]})
                     self.o("base_amount", "est", "base", e_b, scale=value / P)
                     self.o("quote_amount", "est", "quote", e_q, scale=value)
                     summ["nz"] = True
@@ -546,6 +565,16 @@ def _site_for(oa, om, diag):
     return site
 
 
+def _gross_value(runmax, price):
+    """Largest holdings seen so far in the script, in quote tokens."""
+    return runmax["quote"] + runmax["base"] * MR.frac(price)
+
+
+def _material_actions(o, tol, runmax):
+    gross = _gross_value(runmax, o.meta["P"])
+    return tuple(nm for nm, mag in zip(o.value, o.meta["mags"]) if mag is None or MR.frac(mag) > tol * gross)
+
+
 def compare(mon, pair, ra, rm, case_no, sticky_possible):
     """Walk the two observation lists in parallel."""
     tolclass = "exact"
@@ -557,12 +586,21 @@ def compare(mon, pair, ra, rm, case_no, sticky_possible):
     bad_step = None
     worst = {"exact": Fraction(0), "estimate": Fraction(0)}
     nz_steps = set()
+    div_step, div_r, diverged = None, Fraction(0), False
     n = min(len(ra.obs), len(rm.obs))
     for i in range(n):
         oa, om = ra.obs[i], rm.obs[i]
         step_id = oa.label.rsplit("/", 1)[0]  # bar/step/operation: the fields of one operation's result
         if bad_step is not None and step_id != bad_step:
             break
+        if div_step is not None and step_id != div_step:
+            if div_r > DIVERGED:
+                # add_liquidity_by_value kept its 0.1 %, but the two states now differ by more than rounding: what
+                # follows (which token the remainder is in, how much liquidity it buys in a narrow range, the fee
+                # share of every position) is a consequence the statement does not bound
+                diverged = True
+                break
+            div_step, div_r = None, Fraction(0)
         if oa.label != om.label:
             mon.ev()
             mon.violation("uniswap", oa.op, "trace-shape", oa.site, f"observation {i}: A recorded {oa.label}, mirror recorded {om.label}", {"case": case_no})
@@ -581,7 +619,13 @@ def compare(mon, pair, ra, rm, case_no, sticky_possible):
             continue
         mon.ev()
         if oa.kind in ("ok", "count"):
-            if oa.value != om.value:
+            va, vm = oa.value, om.value
+            if oa.field == "actions" and va != vm:
+                # a trade that moves less than the tolerance of the gross amounts seen so far is rounding dust (an
+                # already balanced wallet "rebalanced" by 1e-34 of itself, in either direction): not an outcome
+                tol_now = MR.ESTIMATE if tolclass == "estimate" else MR.EXACT
+                va, vm = (_material_actions(o, tol_now, runmax) for o in (oa, om))
+            if va != vm:
                 if oa.kind == "ok":
                     clause = "rejection-not-mirrored" if oa.value[0] != om.value[0] else "rejection-type-differs"
                     detail = (f"A: {'accepted' if oa.value[0] else oa.meta['exc'] + ' @' + str(oa.meta['site'])}; "
@@ -610,18 +654,31 @@ def compare(mon, pair, ra, rm, case_no, sticky_possible):
         rkey = ("pending-" + str(oa.unit)) if oa.kind == "pending" else oa.unit
         if oa.kind in ("wallet", "pending"):
             scale = runmax.get(rkey)
-        elif tolclass == "estimate" and oa.kind != "est" and oa.unit in ("base", "quote", "liq"):
+            if oa.field == "pending_value":  # = pending base * price + pending quote
+                bar_s = oa.label.split("/")[0]
+                p_bar = MR.base_price_of_tick_a(pair.price_tick[int(bar_s)], pair.dq, pair.db)
+                scale = runmax["pending-quote"] + runmax["pending-base"] * MR.frac(p_bar)
+        elif tolclass == "estimate" and oa.unit in ("base", "quote", "liq"):
             # the state reached through an estimate-based helper is only known to 0.1 % of the gross amounts: from
             # the step after the first add_liquidity_by_value on, everything is measured against the largest figure
-            # of its unit seen so far (a remainder of 0.05 % of the wallet may legitimately be 0 in the mirror)
+            # of its unit seen so far (a remainder of 0.05 % of the wallet may legitimately be 0 in the mirror).
+            # A liquidity figure is measured against the liquidity the gross holdings would be in *its* range
+            # (0.05 % of the wallet put into a narrow range is more liquidity than all of it in a wide one).
             if step_id != first_value_op:
                 scale = runmax.get(rkey)
+                if oa.unit == "liq" and oa.meta and "range" in oa.meta:
+                    bar_s = oa.label.split("/")[0]
+                    p_bar = MR.base_price_of_tick_a(pair.price_tick[int(bar_s)], pair.dq, pair.db)
+                    l_eq = MR.liquidity_of_value_a(_gross_value(runmax, p_bar), pair.dq, oa.meta["tick"], *oa.meta["range"])
+                    scale = max(scale, l_eq)
         if oa.scale is not None:
             s2 = max(abs(MR.frac(oa.scale)), abs(MR.frac(om.scale)))
             scale = s2 if scale is None else max(scale, s2)
         if rkey in runmax:
             runmax[rkey] = max(runmax[rkey], abs(a), abs(b))
         ok, r = MR.close(a, b, tol, scale, quantum)
+        if oa.op == "add_liquidity_by_value" and oa.kind != "est":
+            div_step, div_r = step_id, max(div_r, r)
         cname = "estimate" if est else "exact"
         if r > worst[cname]:
             worst[cname] = r
@@ -636,13 +693,13 @@ def compare(mon, pair, ra, rm, case_no, sticky_possible):
                 {"case": case_no, "world": pair.describe(), "script": ra.steps},
             )
             bad_step = step_id
-    if bad_step is None and len(ra.obs) != len(rm.obs):
+    if bad_step is None and not diverged and len(ra.obs) != len(rm.obs):
         mon.ev()
         longer = ra if len(ra.obs) > len(rm.obs) else rm
         extra = longer.obs[n]
         mon.violation("uniswap", extra.op, "trace-shape", extra.site, f"A recorded {len(ra.obs)} observations, mirror {len(rm.obs)}; first extra: {extra.label}", {"case": case_no})
         bad_step = "shape"
-    return bad_step is None, tolclass, quantum, worst, nz_steps
+    return bad_step is None, tolclass, quantum, worst, nz_steps, diverged
 
 
 # =============================================================================== driver
@@ -674,8 +731,8 @@ def one_case(mon, rng, c):
             else:
                 mon.violation("uniswap", op, "raises", f"{type(e).__name__}@{Dr.reject_site(e)}/both", tb[-1500:], {"case": c, "world": pair.describe()})
             return
-    ok, tolclass, quantum, worst, nz_steps = compare(mon, pair, ra, rm, c, allow_est)
-    mon.cls(f"script/{tolclass}/" + ("agree" if ok else "MISMATCH"))
+    ok, tolclass, quantum, worst, nz_steps, diverged = compare(mon, pair, ra, rm, c, allow_est)
+    mon.cls(f"script/{tolclass}/" + (("agree-until-stopped" if diverged else "agree") if ok else "MISMATCH"))
     mon.cls("quantum/" + ("<1e-14" if quantum < Fraction(1, 10**14) else "<1e-12" if quantum < Fraction(1, 10**12) else "<1e-9" if quantum < Fraction(1, 10**9) else "coarse"))
     for k, v in worst.items():
         prev = mon.notes.get(f"worst_rel_{k}_shard{mon.shard.get('shard', 0)}", 0.0)
@@ -718,4 +775,7 @@ def floors(merged, tier):
             out.append(f"{k} reached {reach.get(k, 0)} times (< {v})")
     if merged["classes"].get("script/exact/agree", 0) + merged["classes"].get("script/exact/MISMATCH", 0) < 10:
         out.append("fewer than 10 exact-tolerance scripts")
+    if merged["classes"].get("script/estimate/agree", 0) + merged["classes"].get("script/estimate/MISMATCH", 0) < 10:
+        out.append("fewer than 10 scripts with add_liquidity_by_value compared to their end (the others were stopped after an "
+                   "add_liquidity_by_value whose two results differed by more than 1e-9 within its 0.1 %)")
     return out
